@@ -1,8 +1,8 @@
 """C13 configuration for /verif/check."""
 PROP = dict(
-        module='kernel', pkg='device/acpi/aml', pkgname='aml', harness=['aml/c13_test.go'],
+        module='kernel', pkg='device/acpi/aml', pkgname='aml', harness=['aml/c13_test.go', 'aml/c13_parse_test.go'],
         n=dict(quick=300, thorough=6000),
-        nontrivial=r'^(L \d+ \S+ \| \d{1,9}$|A |AA |D |F |N )',
+        nontrivial=r'^(L \d+ \S+ \| \d{1,9}$|A |AA |D |F |N |PT \S+ \S+ \| ok )',
         rule='one evaluation = one ObjectTree operation (newObject/append/appendAfter/detach/free) or one query '
              '(Find/NumArgs/ArgAt/ClosestNamedAncestor/ObjectAt) on the real code, replayed through the Lean model; '
              'distinct = by hash of (op, observation); non-trivial = a mutating op or a lookup that found a node',
